@@ -19,9 +19,11 @@ RULE = (" || end-to-end part: fedlab cases (seed, index) with all knobs (KnobsFo
 # clause -> known-finding keys that explain a violation of it when the root cause is present in the run
 # (nan-accepted, entity-count-ignored and nullable-requires-null-sent are repaired in loader.go: no mapping any more)
 TABLE = {
-    "errors_nonempty": ["status-ignored-with-data"],
-    "affected_null": ["status-ignored-with-data"],
-    "unaffected_equal": ["multifetch-skip-drops-healthy-entries"],
+    "valid_response": ["multifetch-nan-accepted"],
+    "errors_nonempty": ["status-ignored-with-data", "multifetch-single-origin-count-ignored"],
+    "affected_null": ["status-ignored-with-data", "multifetch-single-origin-count-ignored", "multifetch-nan-accepted"],
+    "requests_subset": ["multifetch-nan-accepted", "multifetch-nullable-requires-null-sent", "multifetch-single-origin-count-ignored"],
+    "unaffected_equal": ["multifetch-skip-drops-healthy-entries", "multifetch-nan-accepted"],
 }
 CLAUSES = ["valid_response", "returns", "errors_nonempty", "requests_subset", "independent_subgraphs_untouched",
            "unaffected_equal", "affected_null"]
